@@ -61,6 +61,8 @@ type jPay struct {
 	Amount tr.Amt   `json:"amount"`
 }
 type jDoc struct {
+	// PreCur: the currency of a preceding document row the input carries ("" for none); it has no bearing on the figures
+	PreCur    string    `json:"precur"`
 	CD        int       `json:"cd"`
 	RR        string    `json:"rr"`
 	Inc       string    `json:"inc"`
@@ -317,6 +319,9 @@ func docJSON(d jDoc, kind, reg string, explicitRule bool) ([]byte, error) {
 	}
 	if len(d.Rounding) > 0 {
 		doc["totals"] = map[string]any{"rounding": amtString(d.Rounding[0])}
+	}
+	if d.PreCur != "" {
+		doc["preceding"] = []any{map[string]any{"code": "PRE-1", "issue_date": "2024-01-02", "currency": d.PreCur}}
 	}
 	if len(rates) > 0 {
 		doc["exchange_rates"] = rates
@@ -648,8 +653,10 @@ func calcRun(w *tr.Writer, d jDoc, reg string, explicitRule bool, meta bool, r *
 		rate := func(from currency.Code) *currency.ExchangeRate {
 			return &currency.ExchangeRate{From: from, To: "MXN", Amount: num.MakeAmount(185000, 4)}
 		}
-		probe := func(kind string, proj func() jRes, conv func() error) {
-			e := calcEvent{K: "convert", Kind: kind, Reg: ev.Reg, D: d, Ok: true, R: emptyRes(), R2: emptyRes(), Perm: []int{}, RoundingAfter: []tr.Amt{}}
+		var probeK func(k, kind string, proj func() jRes, conv func() error)
+		probe := func(kind string, proj func() jRes, conv func() error) { probeK("convert", kind, proj, conv) }
+		probeK = func(k, kind string, proj func() jRes, conv func() error) {
+			e := calcEvent{K: k, Kind: kind, Reg: ev.Reg, D: d, Ok: true, R: emptyRes(), R2: emptyRes(), Perm: []int{}, RoundingAfter: []tr.Amt{}}
 			func() {
 				defer func() {
 					if p := recover(); p != nil {
@@ -669,6 +676,18 @@ func calcRun(w *tr.Writer, d jDoc, reg string, explicitRule bool, meta bool, r *
 		if x := reparse(); x != nil && x.Currency != "MXN" {
 			x.ExchangeRates = append(x.ExchangeRates, rate(x.Currency))
 			probe("invoice", func() jRes { return projectBill(invoiceBill(x)) }, func() error { _, err := x.ConvertInto("MXN"); return err })
+		}
+		// ... also when the converted copy is then inverted and the original calculated again
+		if x := reparse(); x != nil && x.Currency != "MXN" {
+			x.ExchangeRates = append(x.ExchangeRates, rate(x.Currency))
+			probeK("convert-invert", "invoice", func() jRes { return projectBill(invoiceBill(x)) }, func() error {
+				c, err := x.ConvertInto("MXN")
+				if err != nil || c == nil {
+					return err
+				}
+				_ = c.Invert()
+				return x.Calculate()
+			})
 		}
 		if data, err := docJSON(d, "order", reg, explicitRule); err == nil {
 			o := new(bill.Order)
@@ -992,6 +1011,9 @@ func randDoc(r *rand.Rand) jDoc {
 	}
 	if r.Intn(6) == 0 {
 		d.Rounding = []tr.Amt{{V: tr.BigOfInt(int64(r.Intn(5)) - 2), E: d.CD}}
+	}
+	if r.Intn(5) == 0 {
+		d.PreCur = []string{"JPY", "USD", "KWD", "EUR"}[r.Intn(4)]
 	}
 	return d
 }
